@@ -298,7 +298,22 @@ def r1(ctx):
         pk = [c for c in tf.calls if c.name == "potential_kinds"]
         isn = [c for c in tf.calls if c.name == "is_none"]
         good = False
-        if pk and isn:
+        if pk:
+            # any form of the test (`is_none()`, `match`, `let … else`, `?`): the struct literal lies only on the Some side
+            from ..query import option_arms
+            agg_blocks = {b for f, b, _, _ in aggs if f is tf}
+            for c in pk:
+                arms = option_arms(tf, c)
+                if arms["none"] and arms["some"]:
+                    nb = set()
+                    for x in arms["none"]:
+                        nb |= set(tf.reachable_from(x))
+                    sb = set()
+                    for x in arms["some"]:
+                        sb |= set(tf.reachable_from(x))
+                    if agg_blocks and not (agg_blocks & nb) and agg_blocks <= sb:
+                        good = True
+        if pk and isn and not good:
             # the aggregate block must be on the `false` arm of is_none's switch
             for c in isn:
                 if not any(o.kind == "call" and o.ref in pk for o in deep_roots(prog, tf, c.args[0])):
